@@ -318,3 +318,53 @@ func VerifH_C15_readmessage() {
 		verif.Assert(err2 != nil, "a failed connection stays failed")
 	}
 }
+
+// VerifH_C15_fault_with_data: the stream fails on a read that also returned bytes (legal for
+// an io.Reader; QUIC streams do it) and serves further bytes afterwards; the payload is read
+// with a caller buffer at least as large as the connection's read buffer (so the library
+// reads straight through).  Bytes that arrived before the failure may still be delivered;
+// nothing the stream returned AFTER the failed read is ever delivered, the failure is
+// reported before the reader could get past it, and every later call reports the same failure.
+func VerifH_C15_fault_with_data() {
+	L := 24 + 8*verif.Tier()
+	payload := verif.BytesN(L)
+	data := append([]byte{0x80 | byte(L)}, payload...)
+	data = append(data, 0x80|2, 'o', 'k', 0x80|1, '!')
+	rd := &fakeReader{data: data, fail: verif.Choose(3), failWithData: true, posAtFail: -1}
+	rd.err = pickInjectedErr()
+	rd.chunk = [2]int{5, 17}[verif.Choose(2)]
+	c := NewConn(zzmodels.StubSession(), &fakeStream{rd: rd, failAt: -1}, true, 16, 0, nil, nil, nil)
+	consumed := 0 // stream offset of the last byte handed to the application (headers included)
+	var firstErr error
+	buf := make([]byte, 32)
+	for msg := 0; msg < 4 && firstErr == nil; msg++ {
+		_, r, err := c.NextReader()
+		if err != nil {
+			firstErr = err
+			break
+		}
+		h := refParse(data, consumed)
+		verif.Assert(h.ok, "a delivered message has a complete header in the stream")
+		consumed += h.size
+		for i := 0; i < 6; i++ {
+			n, e := r.Read(buf)
+			consumed += n
+			if e == io.EOF {
+				break
+			}
+			if e != nil {
+				firstErr = e
+				break
+			}
+		}
+		if rd.posAtFail >= 0 {
+			verif.Assert(consumed <= rd.posAtFail, "nothing the stream returned after a failed read is ever delivered")
+		}
+	}
+	verif.Assert(firstErr != nil, "the failure (or the end of the stream) is reported")
+	if rd.posAtFail >= 0 {
+		verif.Assert(consumed <= rd.posAtFail, "nothing the stream returned after a failed read is ever delivered")
+	}
+	_, _, e2 := c.NextReader()
+	verif.Assert(e2 == firstErr, "once a read has failed every later read reports the same failure")
+}
